@@ -25,6 +25,11 @@ def _w():
                                           ('if', ('bin', 'gt', V(3), N(0)), seq(('let', False, 1, 'int', N(2)), P(V(1))), ('skip',)),
                                           P(V(1)), ('ret', V(1))))
     w['c03:block-exit'] = (prog([blk, MAIN]), {2: [('assert', EQ(CALL(2, N(1)), N(1)))]})
+    # the same defect makes the COMPILER loop for ever on a terminating program: the counter of a while loop is shadowed inside its body
+    hang = fn(2, [], 'int', seq(('let', True, 1, 'int', N(0)),
+                                ('while', ('bin', 'lt', V(1), N(2)), seq(('set', 1, ('bin', 'add', V(1), N(1))), ('let', True, 1, 'int', N(-1)))),
+                                ('ret', V(1))))
+    w['c03:block-exit-hang'] = (prog([hang, MAIN]), {2: [('assert', EQ(CALL(2), N(2)))]})
     # locals of one shadow block are still in scope when the next shadow block runs
     rq = fn(3, [], 'int', ('ret', V(1)))
     idf = fn(2, [(4, 'int')], 'int', ('ret', V(4)))
